@@ -24,6 +24,7 @@ counter part of `collect_refines_spec` rests on it.
 import PromVerif.Lemmas.MetricsCollect
 import PromVerif.Lemmas.MetricsFrame
 import PromVerif.Lemmas.MetricsNodup
+import PromVerif.Lemmas.MetricsConstruct
 
 namespace PromVerif.Props.C01
 open PromVerif.Py PromVerif.Model.Metrics PromVerif.Generated.Metrics PromVerif.Lemmas.Metrics
@@ -61,6 +62,32 @@ theorem state_is_replay_of_accepted (ds : List (Decl V)) (ops : List (Op V)) :
     (run (Reg.fresh ds) ops).1
       = List.zipWith metricOf ds (Spec.Metrics.history ds (accepted (Reg.fresh ds) ops)) :=
   (run_fresh_abs ds ops).eq
+
+/-- **`_prepare_buckets` delivers what the histogram theorems assume**: for NaN-free bounds, when it returns the
+bounds are sorted by `<=`, the LAST ONE IS `+Inf`, and there are at least two.  (With a NaN bound the library's check
+`buckets != sorted(buckets)` is blind — `Histogram(buckets=[2.0, nan, 1.0])` is accepted; such layouts are not "sorted
+bucket layouts" and are outside the statement and the model.) -/
+theorem prepare_buckets_sorted_inf (htr : LeTrans V) (hl : InfLaws V) (bs bounds : List (V × Str))
+    (hnn : ∀ b ∈ bs, Val.le b.1 b.1 = true) (h : prepareBuckets bs = .ok bounds) :
+    (bounds.map (·.1)).Pairwise (fun x y => Val.le x y = true) ∧ (bounds.map (·.1)).getLast? = some Val.inf ∧
+      2 ≤ bounds.length :=
+  prepareBuckets_ok htr hl bs bounds hnn h
+
+/-- **Every metric the constructors accept satisfies `GoodDecl`** — so `collect_refines_spec` and
+`histogram_cumulative` apply to all of them; the caller supplies only what no constructor checks (`InputsOK`: no NaN
+bound, pairwise distinct enum states). -/
+theorem constructed_is_good (htr : LeTrans V) (hl : InfLaws V) (legacy : Bool) (d d' : Decl V) (hin : InputsOK d)
+    (h : construct legacy d = .ok d') : GoodDecl d' :=
+  construct_good htr hl legacy d d' hin h
+
+/-- `collect_refines_spec` for registries of constructed metrics: no `GoodDecl` hypothesis left -/
+theorem collect_refines_spec_constructed {B : Nat} (hx : CountExact V B) (htr : LeTrans V) (hl : InfLaws V)
+    (legacy : Bool) (ds : List (Decl V))
+    (hc : ∀ d' ∈ ds, ∃ d, InputsOK d ∧ construct legacy d = .ok d') (ops : List (Op V)) (hB : ops.length ≤ B) :
+    collect (run (Reg.fresh ds) ops).1 = Spec.Metrics.collect ds (accepted (Reg.fresh ds) ops) :=
+  collect_refines_spec hx htr ds (fun d' hd' => by
+    obtain ⟨d, hin, h⟩ := hc d' hd'
+    exact constructed_is_good htr hl legacy d d' hin h) ops hB
 
 /-- … and its child table is a dict: the keys (tuples of stringified label values) are pairwise distinct -/
 theorem reachable_keys_nodup (ds : List (Decl V)) (ops : List (Op V)) :
@@ -435,6 +462,32 @@ theorem reachable_buckets_length (d : Decl V) (bs : List (V × Str)) (hk : d.kin
     | cons o os ih => intro cs h; exact ih _ (by rw [observeBuckets_length]; exact h)
   exact this _ (by simp)
 
+/-- **The `+Inf` bucket equals `_count`**, literally: for every histogram a constructor accepted and every history
+of accepted calls, the last bound IS `+Inf`, and the value exposed for that bucket is the value of the `_count` sample
+(NaN observations, which no bucket takes, included). -/
+theorem inf_bucket_is_count (htr : LeTrans V) (hl : InfLaws V) (legacy : Bool) (d d' : Decl V) (bs : List (V × Str))
+    (hkd : d.kind = .histogram bs) (hin : InputsOK d) (hc : construct legacy d = .ok d') (acts : List (Action V)) :
+    ∃ (bounds : List (V × Str)) (b : V × Str) (v : V) (rest : List (Sample V)),
+      d'.kind = .histogram bounds ∧ bounds.getLast? = some b ∧ b.1 = Val.inf ∧
+      (((bounds.zip (cumulate Val.zero (childOf d' acts).buckets)).map
+          (fun ba => (⟨"_bucket".toList, leLabel ba.1.2, ba.2⟩ : Sample V))).getLast?
+        = some ⟨"_bucket".toList, leLabel b.2, v⟩) ∧
+      childSamples d' (childOf d' acts)
+        = (bounds.zip (cumulate Val.zero (childOf d' acts).buckets)).map
+              (fun ba => ⟨"_bucket".toList, leLabel ba.1.2, ba.2⟩)
+            ++ [⟨"_count".toList, [], v⟩] ++ rest := by
+  obtain ⟨_, _, hk⟩ := construct_shape legacy d d' hc
+  rw [hkd] at hk
+  obtain ⟨bounds, hp, hk'⟩ := hk
+  have hin' : ∀ b ∈ bs, Val.le b.1 b.1 = true := by simpa [InputsOK, hkd] using hin
+  obtain ⟨_, hlast, hlen⟩ := prepareBuckets_ok htr hl bs bounds hin' hp
+  have hne : bounds ≠ [] := by intro e; rw [e] at hlen; simp at hlen
+  obtain ⟨b, v, rest, hb, h1, h2⟩ :=
+    inf_bucket_eq_count d' bounds hk' (childOf d' acts) (reachable_buckets_length d' bounds hk' acts) hne
+  refine ⟨bounds, b, v, rest, hk', hb, ?_, h1, h2⟩
+  rw [List.getLast?_map, hb] at hlast
+  simpa using hlast
+
 end PromVerif.Props.C01
 
 /-! ## 5. non-vacuity: every hypothesis above is met by a concrete non-trivial state (`V := Int`) -/
@@ -448,7 +501,7 @@ instance intVal : Val Int where
   one := 1
   add := fun a b => a + b
   neg := fun a => -a
-  le := fun a b => decide (a ≤ b)
+  le := fun a b => decide (min a 1000000 ≤ min b 1000000)     -- everything from 1000000 up is `+Inf`
   lt := fun a b => decide (a < b)
   ofNat := fun n => (n : Int)
   inf := 1000000
@@ -461,6 +514,10 @@ theorem int_leTrans : LeTrans Int := by
   intro a b c h1 h2
   simp only [Val.le, decide_eq_true_eq] at *
   omega
+
+theorem int_infLaws : InfLaws Int :=
+  ⟨fun x _ => by simp only [Val.le, Val.inf, decide_eq_true_eq]; omega,
+   fun x h => by simpa [Val.beq, Val.inf] using h⟩
 
 /-- a 3-metric registry: a labelled counter, an unlabelled histogram with a negative first bound, a labelled enum -/
 def decls : List (Decl Int) :=
@@ -514,6 +571,14 @@ example : resolveLabels [['l'], ['k']] [.str ['a'], .str "True".toList] [] = .ok
 
 /-- `histogram_cumulative` / `buckets_monotone` hypotheses: the bounds of `h` are sorted -/
 example : ([-1, 5, 1000000] : List Int).Pairwise (fun x y => Val.le x y = true) := by decide
+
+/-- `prepare_buckets_sorted_inf` / `constructed_is_good` / `inf_bucket_is_count`: the constructor accepts the bounds
+`[-1, 5]` (no NaN: each is `<=` itself) and appends `+Inf` -/
+example : (match prepareBuckets [((-1 : Int), "-1.0".toList), (5, "5.0".toList)] with
+    | .ok bounds => bounds.map (·.1) == [-1, 5, 1000000]
+    | .error _ => false) = true := by decide
+example : InputsOK (⟨['h'], .histogram [((-1 : Int), "-1.0".toList), (5, "5.0".toList)], []⟩ : Decl Int) := by
+  simp only [InputsOK]; decide
 
 /-- `remove_exact`, `clear_exact`, `recreated_child_is_zero`: the counter is a labelled metric and `remove` gets two
 values -/
